@@ -354,6 +354,17 @@ def main(argv=None):
     session = open(os.path.join(LEAN, '.session.lock'), 'w')
     fcntl.flock(session, fcntl.LOCK_SH if os.path.realpath(REPO) == '/repo' else fcntl.LOCK_EX)
 
+    # the implementation under check must really be the tree named by PYCEL_REPO (default /repo): a vanished scratch
+    # worktree would otherwise fall back silently to the editable install
+    try:
+        import pycel as _pycel
+        _where = os.path.realpath(_pycel.__file__)
+    except Exception as exc:   # noqa
+        _where = f'<import failed: {type(exc).__name__}: {exc}>'
+    if not _where.startswith(os.path.realpath(os.path.join(REPO, 'src')) + os.sep):
+        print(f'INCONCLUSIVE property={prop_id} pycel was imported from {_where}, not from {REPO}/src')
+        return 2
+
     # 0. tables regenerated from the live source (a changed table breaks the proofs that use it)
     table_err = None
     try:
